@@ -177,7 +177,7 @@ class Judge:
                               v140=first, now=d['key'])
                 elif first != d['key']:
                     self.disc('C02', 'I-location', op['i'], f'{name}: same computation, different storage key', first=first, now=d['key'],
-                              zone='set_valued_parameter_object' if _has_pset(it) else None,
+                              zone='set_valued_parameter_object' if _has_pset(it) else ('path_object_default_persisted' if _has_pathobj(it) else None),
                               render=render, hs=self.scn['procs'][self.proc['index']].get('hs'))
                 other = self.D_of_key.setdefault((it.slug, d['key']), it.D)
                 if other != it.D:
@@ -679,6 +679,21 @@ def _has_pset(it):
             continue
         seen.add(t.fullname)
         if 'PSet' in json.dumps(t.persisted, default=str):
+            return True
+        work.extend(t.inputs.values())
+    return False
+
+
+def _has_pathobj(it):
+    """does this computation (or anything upstream of it) declare a persisted Path-typed parameter whose default is a Path object?"""
+    seen = set()
+    work = [it]
+    while work:
+        t = work.pop()
+        if t.fullname in seen:
+            continue
+        seen.add(t.fullname)
+        if any(p.get('pathobj_default') and not p.get('dpd') and not p.get('ignore') for p in t.cspec['params']):
             return True
         work.extend(t.inputs.values())
     return False
